@@ -239,6 +239,7 @@ pub fn any_line(r: &mut Rng, scripts: &[String]) -> String {
             let p = pattern_soup(r);
             if r.pct(60) { format!("{}${}", p, option_soup(r)) } else { p }
         }
+        3 | 4 if r.pct(12) => r.pick(&["##.promo\\\u{e9} > div", "###box\\\u{5e7f}\u{544a}", "##.a\\\u{1f600}b", "##.x\\\u{301}", "###\\\u{e9}", "##.\\\u{5e7f}", "a.com##.k\\\u{e9}", "##.caf\u{e9}\\ x", "##.\u{65e5}\u{672c}\u{8a9e}", "###\u{5e83}\u{544a} > div", "##.a\u{e9}-box .inner"]).to_string(),
         3 | 4 => crate::cosm::gen_rule(r, scripts),
         5 | 6 => hosts_line(r),
         7 | 8 => special_line(r),
